@@ -54,6 +54,17 @@ def check_raw(raw, cls='AnsiString'):
         if any(cells):
             bad.append(('unformatted', 'input without SGR sequences reports settings %r' % (cells,)))
         return bad, d.ambiguous, 0
+    if d.ambiguous:
+        # '38;x' readings: every character must show one of the admissible styles (computed sequence by sequence)
+        adm = admissible_display(raw)
+        if adm is not None:
+            for i, c in enumerate(cells):
+                got = model.style_of(c)
+                if got not in adm[i]:
+                    bad.append(('style', '%s(%r): char %d (%r) reports %s = %s; admissible terminal styles %s'
+                                % (cls, raw, i, text[i], list(c), got, sorted(adm[i]))))
+                    break
+            return bad, False, d.n_sgr
     if not d.ambiguous:
         for i, c in enumerate(cells):
             got = model.style_of(c)
@@ -62,6 +73,26 @@ def check_raw(raw, cls='AnsiString'):
                             % (cls, raw, i, text[i], list(c), got, d.styles[i])))
                 break
     return bad, d.ambiguous, d.n_sgr
+
+
+def admissible_display(raw):
+    """Per displayed character the set of admissible styles, or None if some sequence is ambiguous for another
+    reason than 38;x."""
+    states = {rt.DEFAULT}
+    out = []
+    pos = 0
+    for (a, b, params) in rt.find_sgr(raw):
+        out.extend([set(states)] * (a - pos))
+        nxt = set()
+        for st in states:
+            r = rt.admissible_states(params, st)
+            if r is None:
+                return None
+            nxt |= r
+        states = nxt
+        pos = b
+    out.extend([set(states)] * (len(raw) - pos))
+    return out
 
 
 def run_raw(raw, acc, classes=('AnsiString',)):
